@@ -210,6 +210,7 @@ func (c *subScn) step(st string) {
 func runSub(t *testing.T, cfg subCfg) sim.Result {
 	return sim.Run(t, 10*time.Second, func(s *sim.S) {
 		defer withLedger(s.Rec)()
+		baseIDs := hx.BaseIDs()
 		c := &subScn{s: s, cfg: cfg, pipes: map[string]*vt.Pipe{}}
 		s.Net.Decode = subDecode
 		c.proto = sub.NewProtocol()
@@ -247,6 +248,7 @@ func runSub(t *testing.T, cfg subCfg) sim.Result {
 		g := sim.Census()
 		sort.Strings(g)
 		s.Rec.Emit("census", "n", len(g), "g", fmt.Sprint(g))
+		hx.Final(s.Rec, c.sock, baseIDs)
 	})
 }
 
@@ -369,6 +371,7 @@ func TestSub(t *testing.T) {
 		if out.Stop() {
 			break
 		}
+		cfg.Steps = closeMix(cfg.Steps, rng, []string{"recv c0", "recv c1", "sub c0 61", "unsub c0 61", "conn", "cclose c1", "adv 1s", "recv c0", "sclose"})
 		res := runSub(t, cfg)
 		out.Add(fmt.Sprintf("sub-%d", i), subCfgEv(cfg), fmt.Sprint(cfg), res)
 	}
